@@ -100,6 +100,7 @@ def _worker_loop(fn, tasks, results, per_task_timeout):
     faulthandler.enable()
     if hasattr(signal, "SIGUSR1"):
         faulthandler.register(signal.SIGUSR1, all_threads=True)  # kill -USR1 <worker> prints its stack
+    done = []  # the runs this worker process executed so far, in order: its part of the schedule
     while True:
         try:
             item = tasks.get(timeout=5)
@@ -120,6 +121,11 @@ def _worker_loop(fn, tasks, results, per_task_timeout):
             out = ("timeout", None)
         except BaseException:  # noqa: harness-level failure, reported as such
             out = ("error", traceback.format_exc())
+        if out[0] == "ok" and isinstance(out[1], dict) and out[1].get("violation"):
+            # recorded schedule: should the violation not reproduce from its own history alone, the runs
+            # that preceded it in this process are what a replay needs (state leaking between runs)
+            out[1]["worker_prefix"] = [list(k) for k in done if isinstance(k, tuple)]
+        done.append(key)
         results.put((key, out, time.time() - t))
     results.put(("__done__", os.getpid(), 0))
 
@@ -435,6 +441,17 @@ def replay(mod, ctx, path):
     ctx.seed = rp.get("seed", ctx.seed)
     if hasattr(mod, "prepare_for"):
         mod.prepare_for(ctx, [rp["history"]])
+    if rp.get("tier") and rp["tier"] != ctx.tier:
+        ctx.tier = rp["tier"]
+        ctx.opts["cfg"] = tier_cfg(mod, rp["tier"])
+    for b, i in rp.get("prefix_runs") or []:
+        # the recorded schedule of the worker process: these runs first, in this order, in this process
+        try:
+            hp = mod.generate(ctx, b, i)
+            if hp is not None:
+                _execute(mod, ctx, hp)
+        except Exception:
+            pass
     res = _execute(mod, ctx, rp["history"])
     v = res["violation"]
     if v:
@@ -633,11 +650,40 @@ def check(mod, ctx, args):
                 timeout=mod_timeout(mod) * 2 + 120,
             )
             ok = cp.returncode == 1 and ("class=%s" % vclass) in cp.stdout
+            note = ""
+            if not ok and val.get("worker_prefix"):
+                # not reproducible from its own history: replay the recorded schedule of the worker process
+                # (the runs it had executed before), shortest suffix first
+                pre = val["worker_prefix"]
+                for kk in [n for n in (1, 3, 8, 20, 60, 150) if n < len(pre)] + [len(pre)]:
+                    with open(path, "w") as f:
+                        json.dump(
+                            {
+                                "property": mod.ID,
+                                "seed": ctx.seed,
+                                "tier": ctx.tier,
+                                "batch": k[0],
+                                "run": k[1],
+                                "class": vclass,
+                                "detail": val["violation"].get("detail"),
+                                "prefix_runs": pre[-kk:],
+                                "history": val["history"],
+                                "note": "reproduces only after the runs listed under prefix_runs were executed in the same process (recorded schedule of the pool worker): state leaks from one run to the next",
+                            },
+                            f,
+                            indent=1,
+                            default=str,
+                        )
+                    cp = subprocess.run([sys.executable, os.path.join(VERIF, "check"), mod.ID, "--replay", path], capture_output=True, text=True, timeout=mod_timeout(mod) * (kk + 2) + 120)
+                    ok = cp.returncode == 1 and ("class=%s" % vclass) in cp.stdout
+                    if ok:
+                        note = " [reproduces only after the %d preceding runs of its worker process, listed in the replay file: state leaks between runs in one process]" % kk
+                        break
             if not ok:
                 print("HARNESS-ERROR replay of %s did not reproduce class %s (rc=%s)\n%s" % (path, vclass, cp.returncode, cp.stdout[-2000:] + cp.stderr[-2000:]))
                 exit_code = 2
                 continue
-            reported.append((vclass, path, val["violation"].get("detail", ""), len(lst)))
+            reported.append((vclass, path, (note.strip() + " " if note else "") + str(val["violation"].get("detail", "")), len(lst)))
         for vclass, path, detail, n in reported:
             lines.append("VIOLATION property=%s replay=%s" % (mod.ID, path))
             lines.append("  class=%s runs=%d detail=%s" % (vclass, n, str(detail)[:600]))
